@@ -29,6 +29,25 @@ type faultPlan struct {
 	armed atomic.Int32 // fault kind to inject at the next matching call (one shot)
 	pos   atomic.Int32 // faultRows: which Next call of the result set fails (0 = before the first row)
 	fired atomic.Bool
+	// pause point: the first call of kind pauseAt (faultExec: before the statement runs; faultCommit: before
+	// COMMIT) announces itself on paused and blocks until resume is closed - the harness runs another
+	// witness instance on the same file in between.
+	pauseAt atomic.Int32
+	paused  chan struct{}
+	resume  chan struct{}
+}
+
+func (p *faultPlan) armPause(kind int) {
+	p.paused = make(chan struct{}, 1)
+	p.resume = make(chan struct{})
+	p.pauseAt.Store(int32(kind))
+}
+
+func (p *faultPlan) pauseHere(kind int) {
+	if p != nil && p.pauseAt.CompareAndSwap(int32(kind), faultNone) {
+		p.paused <- struct{}{}
+		<-p.resume
+	}
 }
 
 func (p *faultPlan) arm(kind, pos int) {
@@ -94,6 +113,7 @@ func (c *faultConn) BeginTx(ctx context.Context, opts driver.TxOptions) (driver.
 }
 
 func (c *faultConn) ExecContext(ctx context.Context, q string, args []driver.NamedValue) (driver.Result, error) {
+	c.plan.pauseHere(faultExec)
 	if c.plan.hit(faultExec) {
 		return nil, errInjected
 	}
@@ -146,6 +166,7 @@ type faultTx struct {
 // Commit under fault: what sqlite does on SQLITE_FULL / SQLITE_IOERR at commit time - nothing becomes
 // durable and the caller gets an error.
 func (t faultTx) Commit() error {
+	t.plan.pauseHere(faultCommit)
 	if t.plan.hit(faultCommit) {
 		_ = t.Tx.Rollback()
 		return errInjected
